@@ -55,3 +55,14 @@ T("C15", "twin-limit-as-find-end-buffer-relative", "utils.py", _OLD, _EB("max_of
 T("C15", "twin-limit-as-find-end-file-relative", "utils.py", _OLD, _EB("max_offset - pos + len(saved) + needle_len if max_offset else len(d)"))
 M("C15", "limit-as-find-end-forgets-carry-and-needle", "utils.py", _OLD, _EB("max_offset - pos - 1 if max_offset else None"), "C15.R5")
 M("C15", "limit-as-find-end-always-applies", "utils.py", _OLD, _EB("max_offset + needle_len"), "C15.R5")
+
+# ArtifactKit scanner: the scan starts at the requested offset (0 is an offset), or at the current position for None
+_AK_START = "    if start_offset is not None:\n        fobj.seek(start_offset)\n    pos = fobj.tell()\n"
+M("C15", "artifact-start-truthiness-guard", "artifact.py", _AK_START, "    if start_offset:\n        fobj.seek(start_offset)\n    pos = fobj.tell()\n", "C15.R6")
+M("C15", "artifact-start-tell-before-seek", "artifact.py", _AK_START, "    pos = fobj.tell()\n    if start_offset is not None:\n        fobj.seek(start_offset)\n", "C15.R6")
+M("C15", "artifact-start-relative-seek", "artifact.py", _AK_START, "    if start_offset is not None:\n        fobj.seek(start_offset, 1)\n    pos = fobj.tell()\n", "C15.R6")
+M("C15", "artifact-start-conditional-expression-on-truth", "artifact.py", _AK_START, "    pos = start_offset if start_offset else fobj.tell()\n", "C15.R6")
+T("C15", "twin-artifact-start-conditional-expression", "artifact.py", _AK_START, "    pos = fobj.tell() if start_offset is None else start_offset\n")
+T("C15", "twin-artifact-start-rebound-parameter", "artifact.py", _AK_START, "    if start_offset is None:\n        start_offset = fobj.tell()\n    pos = start_offset\n")
+T("C15", "twin-artifact-start-seek-result", "artifact.py", _AK_START, "    if start_offset is None:\n        pos = fobj.tell()\n    else:\n        pos = fobj.seek(start_offset, 0)\n")
+T("C15", "twin-artifact-start-early-branches", "artifact.py", _AK_START, "    if start_offset is None:\n        pos = fobj.tell()\n    else:\n        fobj.seek(start_offset)\n        pos = fobj.tell()\n")
